@@ -182,8 +182,10 @@ theorem psV3Connack_PF (hP : CP P) (c : C) (p : Pkt) (hk : p.kind = .connack)
       simp [hP.toNC h, notClose]
     · rename_i hr
       have hp : P (.send p none) := hP.snd p none (by simp [hk]) (fun _ => by simpa using hr)
-      exact .inl (sendPostProcess_all hP.lax _ (sendStored_all hP.lax _ (by simp [h, hp])
-        (fun x hx _ => hst x (by simpa using hx))))
+      refine .inl (sendPostProcess_all hP.lax _ ?_)
+      split
+      · exact sendStored_all hP.lax _ (by simp [h, hp]) (fun x hx _ => hst x (by simpa using hx))
+      · simp [clearStoreRelated, h, hp]
 
 theorem psV5Connack_PF (hP : CP P) (c : C) (p : Pkt) (hk : p.kind = .connack)
     (hst : ∀ x ∈ c.s.store, P (.send x.2 none)) (h : EvAll P c.ev) : PF P (psV5Connack c p).ev := by
@@ -200,11 +202,14 @@ theorem psV5Connack_PF (hP : CP P) (c : C) (p : Pkt) (hk : p.kind = .connack)
       · rename_i hr
         simp only [ne_eq, Decidable.not_not] at hr
         have hp : P (.send p none) := hP.snd p none (by simp [hk]) (fun _ => hr)
-        refine .inl (sendPostProcess_all hP.lax _ (sendStored_all hP.lax _ ?_ ?_))
-        · simp [hr, hp, propsFold_all (connackSendProp_all hP.lax) c p.props h]
-        · intro x hx _
-          refine hst x ?_
-          simpa [hr, propsFold_store connackSendProp_store c p.props] using hx
+        refine .inl (sendPostProcess_all hP.lax _ ?_)
+        split
+        · refine sendStored_all hP.lax _ ?_ ?_
+          · simp [hr, hp, propsFold_all (connackSendProp_all hP.lax) c p.props h]
+          · intro x hx _
+            refine hst x ?_
+            simpa [hr, propsFold_store connackSendProp_store c p.props] using hx
+        · simp [clearStoreRelated, hr, hp, propsFold_all (connackSendProp_all hP.lax) c p.props h]
 
 theorem processSend_PF (hP : CP P) (c : C) (p : Pkt)
     (hst : ∀ x ∈ c.s.store, P (.send x.2 none)) (h : EvAll P c.ev) : PF P (processSend c p).ev := by
